@@ -34,11 +34,15 @@ def impl_generate(vendor, cls, address, size, dp, iu, sv, d):
         return common.impl_err(e)
 
 
-def impl_merge(address, size, files, d):
+def impl_merge(address, size, files, d, prior_text=None):
     from suit_generator import cmd_mpi
 
     out = os.path.join(d, "merged.hex")
-    common.make_stale(out)
+    if prior_text is not None:
+        with open(out, "w") as fh:      # the output of an earlier, related run is in place (a rebuild into the same build directory)
+            fh.write(prior_text)
+    else:
+        common.make_stale(out)
     paths = []
     for i, t in enumerate(files):
         p = os.path.join(d, f"in{i}.hex")
@@ -207,7 +211,23 @@ def run(tier: str, seed: int) -> int:
                 images.append(drv.call({"op": "ihex.read", "text": text})["ok"])
             if files is None:
                 continue
-            impl = impl_merge(address, size, files, d)
+            prior = None
+            if i % 7 == 3 and recs and all(sz >= 48 for _, sz in recs) and address + size + 0x2000 < 2 ** 32:
+                # a rebuild after the memory map moved: the output path already holds the merged area of the *same* records (names, policies,
+                # sizes, offsets) at another base address - the new run must write the area at the new address (C12-r)
+                delta = 0x1000
+                moved = []
+                for j, (a, sz) in enumerate(recs):
+                    jj = 0 if i % 4 == 1 else j
+                    r = impl_generate("nordicsemi.com", f"class{jj}", a + delta, sz, jj % 2 == 0, jj % 3 == 0, [None, "update", "update-and-boot"][jj % 3], d)
+                    if "ok" in r:
+                        moved.append(r["ok"])
+                if len(moved) == len(recs):
+                    pr = impl_merge(address + delta, size, moved, d)
+                    if "ok" in pr:
+                        prior = pr["ok"]
+                        res.count("merge:into-the-output-of-a-moved-area")
+            impl = impl_merge(address, size, files, d, prior_text=prior)
             req = {"op": "mpi.merge", "address": address, "size": size, "inputs": images}
             model = drv.call(req)
             res.case(["merge", address, size, recs])
